@@ -97,7 +97,7 @@ func streamPreds(seed uint64, n int, driver string, tier string) (*Summary, erro
 	if n > 20000 {
 		maxLen = 3
 	}
-	sum.Rule = fmt.Sprintf("every built-in test: strings exhaustive up to length %d over an 18-symbol alphabet containing the ASCII range edges (/ 0 9 : @ A Z [ ` a z {) and 2/3/4-byte runes (for UUID and Email also a valid subject with every position replaced by every ASCII byte), x parameters (lengths 0..4, prefixes/substrings from the alphabet, OneOf sets); numbers at parameter-1/parameter/parameter+1 incl. NaN, +-0, +-Inf; times equal in different zones; slices of length 0..4; plus %d random; non-trivial = every case (each decides one predicate on one subject); distinct = distinct case line", maxLen, n)
+	sum.Rule = fmt.Sprintf("every built-in test: strings exhaustive up to length %d over an 18-symbol alphabet containing the ASCII range edges (/ 0 9 : @ A Z [ ` a z {) and 2/3/4-byte runes (for UUID and Email also a valid subject with every position replaced by every ASCII byte and by runes that case / width folding relates to ASCII: ſ K ı İ µ ß Å ａ Ａ ０ ...), x parameters (lengths 0..4, prefixes/substrings from the alphabet, OneOf sets); numbers at parameter-1/parameter/parameter+1 incl. NaN, +-0, +-Inf; times equal in different zones; slices of length 0..4; plus %d random; non-trivial = every case (each decides one predicate on one subject); distinct = distinct case line", maxLen, n)
 	r := rng.New(seed)
 	type pc struct {
 		kind, elem string
@@ -175,6 +175,10 @@ func streamPreds(seed uint64, n int, driver string, tier string) (*Summary, erro
 					continue
 				}
 				cases = append(cases, pc{"str", "", t, eng.D{K: "s", S: base[:pos] + string(rune(b)) + base[pos+1:]}})
+			}
+			// runes that case folding, width folding or compatibility mappings relate to ASCII letters and digits
+			for _, ru := range []rune{'\u017f', '\u212a', '\u0131', '\u0130', '\u00b5', '\u00df', '\u212b', '\uff41', '\uff21', '\uff10', '\u00ff', '\u03a3', '\u03c2', '\u01c5', '\u0660', '\u2460', '\u00aa'} {
+				cases = append(cases, pc{"str", "", t, eng.D{K: "s", S: base[:pos] + string(ru) + base[pos+1:]}})
 			}
 		}
 	}
